@@ -433,6 +433,11 @@ func (e *Evaluator) evalFunccall(funcCall *parser.FuncCall) (value, error) {
 	}
 	builtin, ok := e.builtins.Funcs[funcCall.Name]
 	if ok {
+		if e.Stopped {
+			// An argument such as `read` or `sleep` has handed control to
+			// the platform, which asked to stop in the meantime.
+			return nil, ErrStopped
+		}
 		val, err := builtin.Func(e.scope, args)
 		if funcCall.Name == "test" {
 			e.TestInfo.total++
